@@ -87,6 +87,19 @@ theorem C05_addExpr_any_spelling_spec (m : Mgr) (hI : Inv m) (hoff : m.lastLen =
     C05_addExpr_spec m hI hoff hO _ t (parse_tokenize_spellWith ex t hwf L hL) hM
   exact ⟨r, m', he, hI', hx, hm, hd⟩
 
+/-- non-vacuity of `C05_addExpr_any_spelling_spec`: the fresh manager, a formula over constants
+and the node `@1` with three operators, the layout "second spelling, no blanks" -/
+def exConst : Ast := .bin .implies (.bin .and (.bool true) (.not (.bool false))) (.bin .or (.num false "1") (.bool false))
+
+example : Inv ({} : Mgr) ∧ ({} : Mgr).lastLen = none ∧ OrderOK ({} : Mgr).tbl ∧ exConst.WF ∧
+    Meaningful ({} : Mgr).tbl exConst ∧
+    layoutOk { choice := fun _ => 1, gap := fun _ => [] } (printG (fun _ => false) exConst) = true ∧
+    spellWith { choice := fun _ => 1, gap := fun _ => [] } (printG (fun _ => false) exConst) = "True&!False->@1|False" := by
+  refine ⟨Inv.init, rfl, OrderOK.empty, by simp [exConst, Ast.WF], ?_, by decide, by decide⟩
+  have e : digitsToNat "1" = 1 := by decide
+  simp only [exConst, Meaningful, e]
+  exact ⟨by decide, ⟨by decide, trivial, trivial⟩, by decide, mem_one _, trivial⟩
+
 /-! ### non-vacuity: one token string with every kind of token, primed names, nested binders -/
 
 def exToks : List Tok :=
